@@ -224,6 +224,8 @@ def c01_rf18(run):
     rf_flow.rf44(run)
     rf_fold.rf49(run)
     rf_flow.rf52(run)
+    rf_flow.rf54(run)
+    rf_flow.rf55(run)
 
 
 def c04_rf18(run):
